@@ -153,7 +153,90 @@ class Graph:
                 u = parent[u]
             p.reverse()
             paths.append(p)
+        self._parent = parent
         return paths
+
+    def signature(self, nid):
+        return _sig_of_state(self.nodes[nid])
+
+    def edge_paths(self):
+        """See LazyGraph.edge_paths: one path per non-tree edge (the same event after another history)."""
+        if not hasattr(self, "_parent"):
+            self.bfs_paths()
+        return _edge_paths(self._parent, [(s, d) for s, d, *_ in self.edges])
+
+    def sample_paths(self, paths, budget, rnd, depth=3):
+        return _stratified(self, paths, budget, rnd, depth)
+
+
+def _sig_of_state(s):
+    """(operation, outcome) of the transition that led to a parsed state (from its `last` variable), as far as it can be read."""
+    last = s.get("last") if isinstance(s, dict) else None
+    if not isinstance(last, dict):
+        return (str(last)[:24], "?")
+    ev = last.get("ev", last)
+    op = ev.get("op", ev.get("e", "?")) if isinstance(ev, dict) else str(ev)[:24]
+    mode = ev.get("mode", "") if isinstance(ev, dict) else ""
+    out = last.get("out", "?")
+    return (f"{op}{':' + str(mode) if mode else ''}", out if isinstance(out, str) else str(out)[:24])
+
+
+def _edge_paths(parent, edges):
+    memo = {}
+
+    def path_to(u):
+        if u in memo:
+            return memo[u]
+        p, x = [], u
+        while x is not None:
+            p.append(x)
+            x = parent[x]
+        p.reverse()
+        memo[u] = p
+        return p
+    out, seen = [], set()
+    for u, v in edges:
+        if parent.get(v, 0) == u or u == v or (u, v) in seen or u not in parent:
+            continue
+        seen.add((u, v))
+        out.append(path_to(u) + [v])
+    return out
+
+
+def _stratified(g, paths, budget, rnd, depth=3):
+    if len(paths) <= budget:
+        return list(paths)
+    groups = {}
+    for p in paths:
+        groups.setdefault(tuple(g.signature(n) for n in p[-depth:]), []).append(p)
+    keys = sorted(groups, key=repr)
+    for k in keys:
+        rnd.shuffle(groups[k])
+    out, i = [], 0
+    while len(out) < budget:
+        took = False
+        for k in keys:
+            if i < len(groups[k]):
+                out.append(groups[k][i])
+                took = True
+                if len(out) >= budget:
+                    break
+        if not took:
+            break
+        i += 1
+    return out
+
+
+def choose_paths(g, paths, budget, rnd, depth=3):
+    """The paths a budgeted replay walks.  `paths` = the root-to-leaf paths of the BFS spanning tree (every node = every (event,
+    resulting state) at least once).  The non-tree edges - the same event after ANOTHER history, e.g. after a rejected call that leaves
+    the abstract state but perhaps not the implementation's caches - join them; when the pool exceeds the budget the sample is
+    stratified by the (operation, outcome) kinds of the last `depth` transitions, so every kind of succession that exists in the graph
+    is walked.  Returns (paths, all_nodes_covered)."""
+    extra = g.edge_paths()
+    if len(paths) <= budget:
+        return list(paths) + _stratified(g, extra, budget - len(paths), rnd, depth), True
+    return _stratified(g, list(paths) + extra, budget, rnd, depth), False
 
 
 def load_dot(path: Path) -> Graph:
@@ -351,7 +434,30 @@ class LazyGraph:
                     u = parent[u]
                 p.reverse()
                 paths.append(p)
+        self._parent = parent
         return paths
+
+    def edge_paths(self):
+        """One path per NON-tree edge (u, v) of the BFS spanning tree: the tree path to u followed by v.  The spanning tree reaches
+        every node, i.e. every (event, resulting state); an edge that is not in the tree is the same event taken after ANOTHER
+        history (e.g. after a rejected call, which leaves the abstract state but not necessarily the implementation's caches)."""
+        if not hasattr(self, "_parent"):
+            self.tree_paths()
+        return _edge_paths(self._parent, self.edges)
+
+    _OPOUT = re.compile(r'op \|-> \\?"([a-z_]+)\\?"')
+    _OUT = re.compile(r'out \|-> \\?"([a-z_]+)\\?"')
+
+    def signature(self, nid):
+        """(operation, outcome) of the transition that led to a node, read from the raw label of `last` (no parsing)."""
+        raw = self.raw[nid]
+        i = raw.find("last")
+        seg = raw[i:] if i >= 0 else raw
+        m, o = self._OPOUT.search(seg), self._OUT.search(seg)
+        return (m.group(1) if m else "?", o.group(1) if o else "?")
+
+    def sample_paths(self, paths, budget, rnd, depth=3):
+        return _stratified(self, paths, budget, rnd, depth)
 
 
 def dump_lazy(tla: Path, cfg: Path, tmp: Path, **kw):
